@@ -377,6 +377,14 @@ class QasmOutput:
             return protocols.qasm(op, args=self.args, default=None) is not None
 
         def fallback(op):
+            if isinstance(op.untagged, ops.ClassicallyControlledOperation):
+                # Export the controlled operation through the fallback and keep its conditions.
+                controlled = op.untagged
+                inner = fallback(controlled.without_classical_controls())
+                if inner is NotImplemented:
+                    return NotImplemented
+                return inner.with_classical_controls(*controlled.classical_controls)
+
             if len(op.qubits) not in [1, 2]:
                 return NotImplemented
 
